@@ -121,6 +121,35 @@ pub fn boundary_code_points() -> Vec<char> {
     v
 }
 
+/// Sets {p-1, p, b} and {b, p, p+1} where b is a code point next to an encoding boundary and p = b + d for
+/// distances d that are typical slips of position arithmetic (size of the surrogate block +-1, 0x100, ...):
+/// if p and b were wrongly taken for neighbours, the class would be printed as a range.
+pub fn far_neighbour_sets() -> Vec<Vec<String>> {
+    let mut v = vec![];
+    let ch = |x: i64| if x >= 0 { char::from_u32(x as u32) } else { None };
+    for b in boundary_code_points() {
+        let b = b as i64;
+        for d in [0x800i64, 0x801, 0x7ff, 0x100, 0x1000, 0x10000, 0x2000] {
+            for sign in [-1i64, 1] {
+                let p = b + sign * d;
+                for set in [[ch(p - 1), ch(p), ch(b)], [ch(b), ch(p), ch(p + 1)], [ch(p - 1), ch(p), ch(b + 1)]] {
+                    if set.iter().all(|c| c.is_some()) {
+                        let mut t: Vec<String> = set.iter().map(|c| c.unwrap().to_string()).collect();
+                        t.sort();
+                        t.dedup();
+                        if t.len() == 3 {
+                            v.push(t);
+                        }
+                    }
+                }
+            }
+        }
+    }
+    v.sort();
+    v.dedup();
+    v
+}
+
 /// At least 32 test cases of the shape <letter><member of a class> plus literal text resembling the
 /// token of that class, e.g. a0..j3 and `a\d`: (test cases, class flag).
 pub fn many_lookalike_cases() -> Vec<(Vec<String>, u32)> {
